@@ -268,3 +268,22 @@ def ring(P, E, chk):
                      "a slot is reported without its id having matched")
     if nset < 2:
         raise AnalysisBroken("C20.R5: fw_query_get shape not recognised")
+    # who may write a remembered entry: only the ring's own unit.  An entry "cleared" elsewhere (id = 0) still matches a
+    # reply whose id is 0 - and dns_get_id() yields 0 for every datagram too short to carry a header.
+    r7 = chk.rule("C20.R7", "entries are written only by the ring", "no function outside fw_query.c writes a field of a "
+                  "remembered entry (through fwq[] or through the pointer fw_query_get hands out)", "E6", floor=1)
+    nout = 0
+    for f in P.funcs(C.server_units(P)):
+        if f.unit.file == "fw_query.c":
+            continue
+        for node, pth, pt, val, kind in C.writes_in(P, f):
+            if not pth:
+                continue
+            # a local `struct fw_query` that is filled and then handed to fw_query_put() is a copy, not an entry
+            entry = (pth[0][3] == "global" and pth[0][1] == "fwq") or \
+                    (any(c_[0] == "f" and c_[1].endswith("fw_query") for c_ in pth) and ir.through_pointer(pth))
+            if entry:
+                nout += 1
+                chk.site(r7, f, ir.loc(node), pp(node)[:60], False,
+                         "a remembered forward entry is modified outside fw_query.c: lookups by id no longer mean 'put by forward_query'")
+    chk.site(r7, put, put.line, "writers of struct fw_query outside fw_query.c", nout == 0, "%d" % nout)
